@@ -243,6 +243,7 @@ struct Rw<'a> {
     variant: &'a str,
     ring: bool,
     machine: Vec<String>,
+    qnames: Vec<String>,
     subst: Vec<(String, String)>,
     sections: &'a BTreeMap<String, String>,
     rules: RefCell<BTreeMap<String, usize>>,
@@ -321,6 +322,28 @@ impl<'a> Rw<'a> {
             Expr::Index(i) => self.is_machine(&i.expr),
             _ => false,
         }
+    }
+    /// names at the leaves of an operand: identifiers, field names, called method / function names
+    fn leaf_names(e: &Expr, out: &mut Vec<String>) {
+        match e {
+            Expr::Path(p) => { if let Some(s) = p.path.segments.last() { out.push(s.ident.to_string()); } }
+            Expr::Field(f) => { if let syn::Member::Named(i) = &f.member { out.push(i.to_string()); } }
+            Expr::Paren(p) => Self::leaf_names(&p.expr, out),
+            Expr::Group(p) => Self::leaf_names(&p.expr, out),
+            Expr::Reference(p) => Self::leaf_names(&p.expr, out),
+            Expr::Unary(u) => Self::leaf_names(&u.expr, out),
+            Expr::Binary(b) => { Self::leaf_names(&b.left, out); Self::leaf_names(&b.right, out); }
+            Expr::MethodCall(c) => out.push(c.method.to_string()),
+            Expr::Call(c) => Self::leaf_names(&c.func, out),
+            _ => {}
+        }
+    }
+    /// second operator family (option `q=`): operands mentioning one of these names use q-prefixed helpers
+    fn fam(&self, es: &[&Expr]) -> &'static str {
+        if self.qnames.is_empty() { return ""; }
+        let mut v = vec![];
+        for e in es { Self::leaf_names(e, &mut v); }
+        if v.iter().any(|n| self.qnames.contains(n)) { "q" } else { "" }
     }
     fn macro_name(mac: &syn::Macro) -> String {
         mac.path.segments.last().map(|s| s.ident.to_string()).unwrap_or_default()
@@ -562,7 +585,8 @@ impl<'a, 'b, 'ast> Visit<'ast> for Collector<'a, 'b> {
                 }
             }
             Expr::Binary(b) if rw.ring && binop_name(&b.op).is_some() && !(rw.is_machine(&b.left) || rw.is_machine(&b.right)) => {
-                let (name, kind) = binop_name(&b.op).unwrap();
+                let (name0, kind) = binop_name(&b.op).unwrap();
+                let name = format!("{}{}", rw.fam(&[&b.left, &b.right]), name0);
                 let l = rw.render_expr(&b.left);
                 let r = rw.render_expr(&b.right);
                 let t = match kind {
@@ -578,7 +602,7 @@ impl<'a, 'b, 'ast> Visit<'ast> for Collector<'a, 'b> {
                 let x = rw.render_expr(&u.expr);
                 rw.count("R3");
                 let sp = e.span().byte_range();
-                self.edits.push((sp.start, sp.end, format!("neg_({x})")));
+                self.edits.push((sp.start, sp.end, format!("{}neg_({x})", rw.fam(&[&u.expr]))));
             }
             Expr::MethodCall(c) if c.method == "collect" && c.args.is_empty() => {
                 // R8: (a..b).collect()
@@ -700,6 +724,7 @@ fn extract_body(repo: &Path, source: &str, d: &Directive, variant: &str) -> Resu
         variant,
         ring: d.opts.get("ring").map(|v| v == "1").unwrap_or(false),
         machine: d.opts.get("machine").map(|s| s.split(',').map(|x| x.to_string()).collect()).unwrap_or_default(),
+        qnames: d.opts.get("q").map(|s| s.split(',').map(|x| x.to_string()).collect()).unwrap_or_default(),
         subst,
         sections: &d.sections,
         rules: RefCell::new(rules),
@@ -835,7 +860,11 @@ fn extract_item(repo: &Path, source: &str, sel: &str, opts: &BTreeMap<String, St
                                     fields.push(format!("    pub {}: {},", f.ident.as_ref().unwrap(), subst_type(&f.ty, &subst)));
                                 }
                             }
-                            _ => return fail("unsupported-construct", format!("item {sel}: not a named-field struct")),
+                            syn::Fields::Unnamed(u) => {
+                                let fs: Vec<String> = u.unnamed.iter().map(|f| format!("pub {}", subst_type(&f.ty, &subst))).collect();
+                                return Ok((format!("pub struct {}({});", st.ident, fs.join(", ")), st.span().start().line, st.span().end().line));
+                            }
+                            _ => return fail("unsupported-construct", format!("item {sel}: unit struct")),
                         }
                         return Ok((format!("pub struct {} {{\n{}\n}}", st.ident, fields.join("\n")), st.span().start().line, st.span().end().line));
                     }
